@@ -142,6 +142,18 @@ def rule_a(rep: Report, idx: SourceIndex) -> None:
 	lcalls = [unparse(n.func) for n in walk_no_nested(lu.node) if isinstance(n, ast.Call)] if lu else []
 	r.check('self.entrypoints.unload' in lcalls, 'ModuleLoader.unload->entrypoints.unload', (lu or ml).where, f'ModuleLoader.unload no longer releases the entrypoint ({lcalls})')
 	r.check('self.db.unload' in lcalls, 'ModuleLoader.unload->db.unload', (lu or ml).where, f'ModuleLoader.unload no longer removes the module\'s symbols from the SymbolDB ({lcalls}): symbols of the old source version survive a reload')
+	# each store is released whatever the state of the OTHER store: the entrypoint of a module that owns no symbol (a script of statements only), or
+	# whose load failed before a symbol was written, must go as well — guarded by `db.has_module(...)` it survives and the next submission under the
+	# same path is transpiled from the old tree
+	if lu is not None:
+		from vlib.match import atoms as atoms_u, nodes as nodes_u
+		for c_ in nodes_u(lu.node, ast.Call):
+			callee = unparse(c_.func)
+			if callee not in ('self.entrypoints.unload', 'self.db.unload'):
+				continue
+			other = 'self.db' if callee.startswith('self.entrypoints') else 'self.entrypoints'
+			guards = [a for a, _ in atoms_u(lu.node, c_) if other in unparse(a)]
+			r.check(not guards, f'ModuleLoader.unload:{callee}:unconditional', (prov.relpath, c_.lineno), f'ModuleLoader.unload reaches `{callee}(...)` only under `{unparse(guards[0]) if guards else ""}`, a condition on the other store: a module without symbols in the table (statements only, or a load that failed early) keeps its entrypoint, and the next load of the same path returns the stale tree — every later submission yields the first one\'s output', unparse(c_))
 	# load writes through the same owners
 	ll = ml.method('load')
 	r.check(ll is not None and has_call(closure_fi(ll), 'entrypoints.load'), 'ModuleLoader.load->entrypoints.load', (ll or ml).where, 'ModuleLoader.load no longer obtains the entrypoint from Entrypoints (pairing with unload would be lost)')
